@@ -166,7 +166,7 @@ def backward(sh, items):
                 fam = 'MMX-SSE:' + d.m.name      # one key per table row (a family-wide key would hide a newly broken row)
         elif 'seg' in pc0:
             fam = seg_family(mn)
-        elif pc0 == '66' and sig.endswith(',i') and re.search(r',0xff[89a-f][0-9a-f]$', rt):
+        elif pc0 == '66' and (sig.endswith(',i') or sig == 'i') and re.search(r'[, ]0xff[89a-f][0-9a-f]$', rt):
             fam = 'imm8-sign-extended-16bit'   # systematic: 66 83 /r ib forms are not among the candidates of their rendering
         sh.case(('back', b), True, cls='back/%d.%02x/p%s' % (cls[0][0], cls[0][1], cls[1]))
         try:
@@ -175,7 +175,7 @@ def backward(sh, items):
             sh.counters['render_raises(C10)'] += 1
             continue
         c2, err2 = asm_safe(txt)
-        pc = x86ref.prefix_class(b)
+        pc = x86ref.seg_detail(x86ref.prefix_class(b), b)
         if fam.startswith('MMX-SSE:') and (c2 is None or b not in c2):
             fam = sse_mechanism(b, txt, rt, False) or fam
         if c2 is None:
